@@ -15,7 +15,7 @@ CLAIMED = {
             "Proof: every clause of the property is a Lean theorem over the conversion tables regenerated from the Rust source on each run (identity, linearity, 0.1% round trip, 0.1% physical factor, create_time/create_speed/create_energy definitions and rejection), for all magnitudes in any linearly ordered field. The constructors' code shape is guarded by the translator and their behaviour tied by a bit-exact differential run on every unit combination.",
             "§5 C09"),
     "C14": ("Lean 4 theorems over an executable model of find_nearest_index / linspace / Interp1D-2D-3D-ND / InterpolationSpeedGradeModel (any linearly ordered field) + bit-exact correspondence run against the real code on random grids, tables, points and every speed/grade unit",
-            "Proof: cell lookup brackets the target (binary-search invariants), the speed/grade prediction is between the four corner rates, exact on grid points, equal to the bilinear formula of every closed cell containing the input (continuity across borders), clamps outside inputs to the nearest grid boundary and never fails for >= 2 bins; the generic interpolators reproduce multilinear data exactly, N-D agrees with 1-D/2-D/3-D, and points outside are rejected. The model is tied to the Rust code by a bit-exact differential run (same operation order) over random uniform and non-uniform grids, all dimensions, validated and raw paths, every unit combination and the bundled random-forest models. Defects of the code (single-bin grid accepted then panics, raw linear methods do not reject outside points, InterpND::new panics on a short grid vector) are machine-checked counterexamples and known findings.",
+            "Proof: cell lookup brackets the target (binary-search invariants), the speed/grade prediction is between the four corner rates, exact on grid points, equal to the bilinear formula of every closed cell containing the input (continuity across borders), clamps outside inputs to the nearest grid boundary and never fails for >= 2 bins; the generic interpolators reproduce multilinear data exactly, N-D agrees with 1-D/2-D/3-D, and points outside are rejected. The model is tied to the Rust code by a bit-exact differential run (same operation order) over random uniform and non-uniform grids, all dimensions, validated and raw paths, every unit combination and the bundled random-forest models. Defects of the code (one-point axes accepted by the constructors and then panicking in find_nearest_index — speed/grade model and Interp2D/3D —, raw linear methods do not reject outside points, InterpND::new panics on a short grid vector) are machine-checked counterexamples and known findings.",
             "§5 C14"),
 }
 
